@@ -4,6 +4,7 @@ package shmipc
 
 import (
 	"fmt"
+	"testing"
 	"io"
 	"net"
 	"os"
@@ -276,6 +277,34 @@ func (p *ePair) cleanup() {
 		if !p.baseFds[fd] {
 			syscall.Close(fd)
 		}
+	}
+}
+
+// bScenario is one session-level scenario explored with a deviation bound.
+type bScenario struct {
+	Name   string
+	Bound  int // quick bound
+	BoundT int // thorough bound
+	Body   func()
+	Racy   bool // racy timers
+}
+
+func runBScenarios(t *testing.T, prop string, scs []bScenario) {
+	w := newWorker(t, prop)
+	defer w.finish()
+	for i, sc := range scs {
+		b := sc.Bound
+		if w.thorough() {
+			b = sc.BoundT
+		}
+		name := fmt.Sprintf("%s/%s-bound%d", prop, sc.Name, b)
+		opts := vrt.Options{Bound: b, RacyTimers: sc.Racy, StepLimit: 20000}
+		if i == 0 {
+			w.determinism(name, opts, sc.Body)
+		}
+		// every worker takes its share of the level-1 subtrees of every scenario
+		opts.ShardI, opts.ShardN = w.shardI, w.shardN
+		w.explore(name, map[string]interface{}{"scenario": sc.Name, "bound": b}, opts, sc.Body)
 	}
 }
 
